@@ -11,7 +11,7 @@ RULE = ("for each of 27 API entry points (raw hashing, string creation, string v
         "i on (exhaustive over positions, i = 0..max+2), through link-time wrappers around malloc/calloc/posix_memalign/mmap/free/munmap; return code, the full "
         "allocation event sequence, the number of live blocks at return and whether a hash string was produced are compared with the model")
 ASSUMPTIONS = ["the real allocator is replaced by failure injection at the wrapper level (the kernel's own OOM behaviour is not exercised)"]
-APIS = ["argon2id_raw", "argon2i_raw", "pwhash_raw", "argon2id_str", "argon2i_str", "pwhash_str", "argon2id_verify_ok", "argon2id_verify_wrong",
+APIS = ["argon2id_raw", "argon2i_raw", "pwhash_raw", "argon2id_raw65", "argon2i_raw200", "pwhash_raw16", "argon2id_str", "argon2i_str", "pwhash_str", "argon2id_verify_ok", "argon2id_verify_wrong",
         "argon2i_verify_ok", "argon2i_verify_wrong", "pwhash_verify_ok", "pwhash_verify_wrong", "argon2id_needs_rehash", "argon2id_needs_rehash_diff",
         "argon2i_needs_rehash", "pwhash_needs_rehash", "scrypt_raw", "scrypt_ll", "scrypt_str", "scrypt_verify_ok", "scrypt_verify_wrong", "sodium_malloc", "sodium_allocarray"]
 
